@@ -7,6 +7,6 @@ claimed = {
 claimed["C07"] = ("proof", "abstract interpretation over go/ssa (interval x known-bits x bit provenance, trace partitioning) compared bit-for-bit with a MIDI 1.0 spec table",
    "Each exported channel-voice / system-common constructor is interpreted abstractly with fully symbolic arguments; every trace partition's output bytes must equal the MIDI 1.0 layout of the clamped arguments bit for bit, the matching accessor interpreted on that abstract result must return the clamped arguments, and every other type-specific accessor must reject. One abstract run covers all argument tuples (in and out of range).",
    "trusted: go/ssa translation, E-abs transfer functions and stdlib summaries, the spec table in props_c07.go; loopback clause (C07.5) is decided under C04", "DESIGN.md §4 C07")
-PENDING_C10 = ("proof", "all-paths error-flow analysis on SSA (discard / swallow / latch rules) + value-flow of the destination writer",
+claimed["C10"] = ("proof", "all-paths error-flow analysis on SSA (discard / swallow / latch rules) + value-flow of the destination writer",
    "Every fallible call reachable from WriteTo / ReadFrom is an obligation: its error is propagated, or tested with every return reachable from the non-nil edge definitely non-nil, or latched and the latch tested by every caller; discards only into in-memory buffers. Size accounting: the destination flows only into the counting wrapper. Induction up the call graph gives: a failing Write/Read makes the entry point return non-nil.",
    "trusted: io.Writer/io.Reader contracts, bytes.Buffer never fails, fmt.Errorf/errors.New non-nil, VTA call graph; partial-count exactness under short writes is the io.Writer contract", "DESIGN.md §4 C10")
